@@ -276,7 +276,7 @@ theorem set_store_one {W : Nat} (hW : 0 < W) (ws : Array Nat) (hok : WordsOK W w
         ((ws.getD (p / W) 0 &&& notW W (shlW W (lowMask n) (p % W))) ||| shlW W v (p % W))) k
       = if p ≤ k ∧ k < p + n then v.testBit (k - p) else bitAt W ws k := by
   unfold bitAt
-  rw [getD_setIfInBounds]
+  rw [getD_setIfInBounds']
   have hd := div_mod_decomp hW p
   have hk' := div_mod_decomp hW k
   by_cases hk : p / W = k / W
@@ -298,7 +298,7 @@ theorem set_store_two {W : Nat} (hW : 0 < W) (ws : Array Nat) (hok : WordsOK W w
         ((ws.getD (p / W + 1) 0 &&& notW W (lowMask n >>> (W - p % W))) ||| (v >>> (W - p % W)))) k
       = if p ≤ k ∧ k < p + n then v.testBit (k - p) else bitAt W ws k := by
   unfold bitAt
-  rw [getD_setIfInBounds, getD_setIfInBounds, Array.size_setIfInBounds]
+  rw [getD_setIfInBounds', getD_setIfInBounds', Array.size_setIfInBounds]
   have hd := div_mod_decomp hW p
   have hk' := div_mod_decomp hW k
   by_cases hk1 : p / W + 1 = k / W
@@ -347,7 +347,7 @@ theorem setWords_spec {W : Nat} (hW : 0 < W) (ws : Array Nat) (hok : WordsOK W w
     have hwi1 := field_word_succ_lt hW hi (by omega : W < p % W + bw)
     rw [readU_of_lt _ _ hwi]
     simp only [Out.bind_ok]
-    rw [readU_of_lt _ _ (by simpa using hwi1), getD_setIfInBounds,
+    rw [readU_of_lt _ _ (by simpa using hwi1), getD_setIfInBounds',
       if_neg (by omega)]
     simp only [Out.bind_ok, Out.pure_eq]
     refine ⟨_, rfl, by simp, ?_, ?_⟩
